@@ -429,8 +429,8 @@ class Ctx:
             "violations": nviol,
             "notes": self.notes,
         }
-        d = VERIF / "evidence"
-        d.mkdir(exist_ok=True)
+        d = Path(os.environ.get("VERIF_EVIDENCE_DIR") or VERIF / "evidence")   # experiments on a changed tree write elsewhere
+        d.mkdir(parents=True, exist_ok=True)
         (d / f"{self.pid}.json").write_text(json.dumps(ev, indent=1, default=str) + "\n")
 
 
